@@ -254,7 +254,7 @@ def small_configs():
     return out
 
 
-def explore(cfg, mod, stub, max_states, max_depth, deadline):
+def explore(cfg, mod, stub, max_states, max_depth, deadline, info=None):
     """state-deduplicated DFS over all schedules of the real implementation. Yields (schedule, run, last_snapshot)."""
     seen = set()
     stack = [[]]
@@ -270,6 +270,11 @@ def explore(cfg, mod, stub, max_states, max_depth, deadline):
                 seen.add(key)
                 if len(sch) < max_depth:
                     stack.append(sch)
+                elif info is not None:
+                    info["truncated"] = True
+    if info is not None:
+        info["complete"] = not stack and not info.get("truncated")
+        info["states"] = len(seen)
 
 
 # ------------------------------------------------------------------------------ the check
@@ -340,26 +345,33 @@ def run(ctx):
     ctx.sample({"config": descr[-1]["config"], "schedule": descr[-1]["schedule"]})
 
     # 3. exhaustive exploration of small configurations
-    t_end = time.time() + (12 if not ctx.thorough else 240)
-    max_edges = 3000 if not ctx.thorough else 50000
+    t_end = time.time() + (12 if not ctx.thorough else 400)
+    max_edges = 3000 if not ctx.thorough else 330000
+    complete = []
     confs = small_configs()
     if ctx.thorough:
-        confs += [gen_config(rng) for _ in range(40)]
+        confs += [gen_config(rng) for _ in range(100)]
     nedges = 0
     for ci, cfg in enumerate(confs):
         share = time.time() + max(2.0, (t_end - time.time()) / max(1, len(confs) - ci))
         nconf_edges = 0
-        for sch, r, last in explore(cfg, mod, stub, 2500 if not ctx.thorough else 60000, 40, min(share, t_end)):
+        info = {}
+        for sch, r, last in explore(cfg, mod, stub, 2500 if not ctx.thorough else 60000, 40, min(share, t_end), info):
             nedges += 1
             nconf_edges += 1
             if nconf_edges > max_edges // len(confs):
+                info["truncated"] = True
                 break
             note_run(cfg, sch, r)
             if not r.final_ready:
                 record_fail(cfg, sch, oracle(cfg, r, mod))
             pairs.append((f"csnap (run_final {FUEL} (init {cfg_coq(cfg, pinned)}) {sched_coq(sch)})", snap_cv(last)))
             descr.append({"config": cfg, "schedule": sch, "kind": "exhaustive edge"})
+        if info.get("complete") and not info.get("truncated"):
+            complete.append({"config": cfg, "states": info.get("states")})
     ctx.count("exhaustive_edges", nedges)
+    ctx.count("configs_with_every_schedule_explored", len(complete))
+    ctx.cov["fully_explored_configs"] = complete[:40]
     ctx.cov["evaluations"] += nruns
 
     # 4. model vs implementation, inside Coq
